@@ -99,6 +99,17 @@ func buildScopeProgram(seq []scopeSym) (prog []model.Stmt, ok bool) {
 var scopeDataTypes = []model.Value{model.Int(-5), model.Str("data"), model.Arr(model.Int(9))}
 
 // scopeData pre-binds a and b: 0 = unbound, 1.. = a type
+// lookAlikes are data names that differ from the names the programs use only in the case of the
+// first letter: they are other variables, never a fallback for an unbound name
+func lookAlikes(d map[string]model.Value) map[string]model.Value {
+	out := map[string]model.Value{"A": model.Int(901), "B": model.Str("cap-b"), "Loop": model.Obj(map[string]model.Value{"index": model.Int(99), "iter": model.Int(98)}),
+		"N": model.Int(902), "X": model.Int(903), "F": model.Float(90.5), "G": model.Float(91.5), "E": model.Int(904), "V": model.Int(905), "K": model.Int(906)}
+	for k, v := range d {
+		out[k] = v
+	}
+	return out
+}
+
 func scopeData(code int) map[string]model.Value {
 	d := map[string]model.Value{}
 	if k := code % 4; k > 0 {
@@ -226,6 +237,36 @@ func init() {
 						c.Violation("component-scope:"+scopeFailureClass(exp, got), why, map[string]any{"files": describeFiles(files), "data": model.DescribeData(cs.data), "expected": expectText(exp)})
 					}
 				}})
+			// arrays built from one base by append/slice/prepend in nested blocks and loops: every variable
+			// keeps showing what was assigned to it
+			alias := arrayAliasCases()
+			secs = append(secs, core.Section{Name: "array-results-across-blocks", Exhaustive: true, N: len(alias),
+				Run: func(c *core.Ctx, i int) { judgeScope(c, alias[i].prog, alias[i].data, "array-alias") }})
+			// an insert body stands in the place of its reserve: the layout sees what it assigns, per pass of a layout loop
+			layoutCases := layoutScopeCases()
+			secs = append(secs, core.Section{Name: "insert-scope", Exhaustive: true, N: len(layoutCases),
+				Run: func(c *core.Ctx, i int) {
+					cs := layoutCases[i]
+					t := newTree("c04tree", ".tw")
+					t.files["layouts/l"] = cs.comp
+					t.files["page"] = cs.page
+					files := t.sources(model.Style{Layout: model.SpaceLayout})
+					tpl, err := loadTree(c, "c04tree", files, ".tw")
+					c.Nontrivial(fmt.Sprint(files, cs.data))
+					if err != nil {
+						c.Violation("insert-scope:load-failed", err.Error(), map[string]any{"files": describeFiles(files)})
+						return
+					}
+					if tpl == nil {
+						return
+					}
+					data := lookAlikes(cs.data)
+					exp := t.expectPage("page", data)
+					got, _ := renderPage(c, tpl, "page", model.NativeData(data))
+					if why := compare(exp, got, false, nil); why != "" {
+						c.Violation("insert-scope:"+scopeFailureClass(exp, got), why, map[string]any{"files": describeFiles(files), "data": model.DescribeData(cs.data), "expected": expectText(exp)})
+					}
+				}})
 			// random scope-heavy programs
 			n, depth := 10000, 3
 			if tier == core.Thorough {
@@ -327,6 +368,7 @@ func reservedLoopCases() []scopeCase {
 
 // judgeScope compares one render (two layouts) with the scope-chain model
 func judgeScope(c *core.Ctx, prog []model.Stmt, data map[string]model.Value, kind string) {
+	data = lookAlikes(data)
 	exp := expectRun(prog, data)
 	switch {
 	case exp.Unspecified:
@@ -444,4 +486,91 @@ func zeroOf(v model.Value) model.Value {
 		return model.Float(0)
 	}
 	return model.Int(0)
+}
+
+// arrayAliasCases: results of append/prepend/slice on one base, assigned in different blocks
+func arrayAliasCases() []scopeCase {
+	var out []scopeCase
+	lit := func(i int64) model.Expr { return model.Lit{V: model.Int(i)} }
+	v := func(n string) model.Expr { return model.Var{Name: n} }
+	call := func(x model.Expr, name string, args ...model.Expr) model.Expr {
+		return model.Call{X: x, Name: name, Args: args}
+	}
+	show := func(names ...string) []model.Stmt {
+		var o []model.Stmt
+		for _, n := range names {
+			o = append(o, model.Text{S: "<" + n + ":"}, model.Print{E: v(n)}, model.Text{S: ">"})
+		}
+		return o
+	}
+	tru := []model.Expr{lit(1)}
+	for L := 0; L <= 9; L++ {
+		var elems []model.Expr
+		var vals []model.Value
+		for k := 0; k < L; k++ {
+			elems = append(elems, lit(int64(k+1)))
+			vals = append(vals, model.Int(int64(k+1)))
+		}
+		for form := 0; form < 2; form++ {
+			var init model.Stmt = model.Assign{Name: "a", E: model.ArrLit{Elems: elems}}
+			var data map[string]model.Value
+			if form == 1 {
+				init = model.Text{S: ""}
+				data = map[string]model.Value{"a": model.Arr(vals...)}
+			}
+			out = append(out, scopeCase{append([]model.Stmt{init, model.Assign{Name: "b", E: call(v("a"), "append", lit(40))},
+				model.If{Conds: tru, Bodies: [][]model.Stmt{{model.Assign{Name: "c", E: call(v("a"), "append", lit(50))}, model.Print{E: v("c")}, model.Text{S: "|"}}}}}, show("a", "b")...), data})
+			out = append(out, scopeCase{append([]model.Stmt{init, model.Assign{Name: "b", E: call(v("a"), "append", lit(40))},
+				model.Each{Var: "k", Arr: intArr(7, 8), Body: []model.Stmt{model.Assign{Name: "c", E: call(v("a"), "append", v("k"))}, model.Assign{Name: "d", E: call(v("b"), "append", v("k"))}, model.Text{S: "."}}}}, show("a", "b")...), data})
+			out = append(out, scopeCase{append([]model.Stmt{init, model.Assign{Name: "p", E: call(v("a"), "prepend", lit(40))},
+				model.If{Conds: tru, Bodies: [][]model.Stmt{{model.Assign{Name: "q", E: call(v("a"), "prepend", lit(50))}, model.Assign{Name: "r", E: call(v("p"), "reverse")}}}}}, show("a", "p")...), data})
+			if L >= 2 {
+				out = append(out, scopeCase{append([]model.Stmt{init,
+					model.If{Conds: tru, Bodies: [][]model.Stmt{{model.Assign{Name: "b", E: call(call(v("a"), "slice", lit(0), lit(int64(L-1))), "append", lit(9))}, model.Print{E: v("b")}, model.Text{S: "|"}}}}}, show("a")...), data})
+				out = append(out, scopeCase{append([]model.Stmt{init, model.Assign{Name: "s", E: call(v("a"), "slice", lit(1))},
+					upFor("k", 0, 2, []model.Stmt{model.Assign{Name: "t", E: call(call(v("a"), "slice", lit(0), lit(1)), "append", v("k"))}, model.Assign{Name: "u", E: call(v("s"), "append", v("k"))}}, nil)}, show("a", "s")...), data})
+			}
+		}
+	}
+	return out
+}
+
+// layoutScopeCases: comp is the layout file here
+func layoutScopeCases() []compScopeCase {
+	var out []compScopeCase
+	lit := func(i int64) model.Expr { return model.Lit{V: model.Int(i)} }
+	v := func(n string) model.Expr { return model.Var{Name: n} }
+	plus := func(a, b model.Expr) model.Expr { return model.Binary{Op: "+", L: a, R: b} }
+	use := model.Use{Name: "~l"}
+	// the layout reads after the reserve what the insert body assigned
+	for _, body := range [][]model.Stmt{
+		{model.Assign{Name: "n", E: plus(v("n"), lit(5))}, model.Text{S: "["}, model.Print{E: v("n")}, model.Text{S: "]"}},
+		{model.Assign{Name: "fresh", E: lit(3)}, model.Print{E: v("fresh")}},
+		{model.Assign{Name: "n", E: model.StrLit{S: "retyped"}}, model.Text{S: "never"}},
+		{model.Assign{Name: "loop", E: lit(1)}, model.Text{S: "never"}},
+		{model.Text{S: "reads "}, model.Print{E: v("n")}, model.Print{E: v("d")}},
+	} {
+		for _, after := range [][]model.Stmt{
+			{model.Text{S: " after="}, model.Print{E: v("n")}},
+			{model.Text{S: " after="}, model.Print{E: v("n")}, model.Text{S: " fresh="}, model.Print{E: v("fresh")}},
+			{model.If{Conds: []model.Expr{lit(1)}, Bodies: [][]model.Stmt{{model.Text{S: " in-if="}, model.Print{E: v("n")}}}}},
+		} {
+			layout := append([]model.Stmt{model.Assign{Name: "n", E: lit(0)}, model.Text{S: "<"}, model.Reserve{Name: "r"}, model.Text{S: ">"}}, after...)
+			out = append(out, compScopeCase{layout, []model.Stmt{use, model.Insert{Name: "r", Block: body}}, map[string]model.Value{"d": model.Str("data")}})
+		}
+		// the reserve sits in a loop of the layout: one scope for all passes, gone after the loop
+		loopLayout := []model.Stmt{model.Assign{Name: "n", E: lit(0)}, model.Each{Var: "i", Arr: intArr(1, 2, 3), Body: []model.Stmt{model.Print{E: v("i")}, model.Reserve{Name: "r"}}},
+			model.Text{S: "("}, model.Print{E: v("n")}, model.Text{S: ")"}}
+		out = append(out, compScopeCase{loopLayout, []model.Stmt{use, model.Insert{Name: "r", Block: body}}, map[string]model.Value{"d": model.Str("data")}})
+		ifLayout := []model.Stmt{model.Assign{Name: "n", E: lit(0)}, model.If{Conds: []model.Expr{lit(1)}, Bodies: [][]model.Stmt{{model.Reserve{Name: "r"}, model.Text{S: " in="}, model.Print{E: v("n")}}}},
+			model.Text{S: " out="}, model.Print{E: v("n")}}
+		out = append(out, compScopeCase{ifLayout, []model.Stmt{use, model.Insert{Name: "r", Block: body}}, map[string]model.Value{"d": model.Str("data")}})
+	}
+	// an insert body that accumulates over the passes of the layout's loop, and the expression form
+	acc := []model.Stmt{model.Assign{Name: "n", E: plus(v("n"), v("i"))}, model.Text{S: "["}, model.Print{E: v("n")}, model.Text{S: "]"}}
+	loopLayout := []model.Stmt{model.Assign{Name: "n", E: lit(0)}, model.Each{Var: "i", Arr: intArr(1, 2, 3), Body: []model.Stmt{model.Print{E: v("i")}, model.Reserve{Name: "r"}}},
+		model.Text{S: "("}, model.Print{E: v("n")}, model.Text{S: ")"}}
+	out = append(out, compScopeCase{loopLayout, []model.Stmt{use, model.Insert{Name: "r", Block: acc}}, nil})
+	out = append(out, compScopeCase{loopLayout, []model.Stmt{use, model.Insert{Name: "r", E: plus(v("n"), model.Binary{Op: "*", L: v("i"), R: lit(2)})}}, nil})
+	return out
 }
